@@ -194,7 +194,6 @@ pub fn explore<S: SeqSubject>(subj: &S, bounds: &SeqBounds, rep: &Report) -> Seq
                                     ops.clone()
                                 };
                                 let s = format!("{}|{}|{}", subj.sig_config(), kind, subj.canon(&core));
-                                sig_cache.lock().unwrap().insert(canon_full, s.clone());
                                 // replay before report: the minimised core must fail again
                                 let again = crate::util::catch(|| subj.run(&core)).ok().and_then(|r| r.violation);
                                 let again_same = matches!(&again, Some((_, k, _)) if *k == kind) || (kind == "panic" && again.is_none());
@@ -210,6 +209,9 @@ pub fn explore<S: SeqSubject>(subj: &S, bounds: &SeqBounds, rep: &Report) -> Seq
                                            "core_ops": core.iter().map(|o| format!("{o:?}")).collect::<Vec<_>>()}),
                                     &detail,
                                 );
+                                // only now: a concurrent history with the same canonical form must not
+                                // report the cached signature before the witness exists
+                                sig_cache.lock().unwrap().insert(canon_full, s);
                             }
                         }
                         // violating histories are not extended
